@@ -16,6 +16,7 @@ hmod!(sim, "sim.rs");
 hmod!(msg, "msg.rs");
 hmod!(c13_gateway, "c13_gateway.rs");
 hmod!(c15_seqjoin, "c15_seqjoin.rs");
+hmod!(c17_parsers, "c17_parsers.rs");
 
 use sim::Scenario;
 
@@ -24,6 +25,7 @@ fn registry() -> Vec<&'static dyn Scenario> {
     v.extend(crate::helpers::verif_h2::scenarios());
     v.extend(c13_gateway::scenarios());
     v.extend(c15_seqjoin::scenarios());
+    v.extend(c17_parsers::scenarios());
     v.extend(crate::protocol::context::verif_h3::scenarios());
     v
 }
